@@ -64,7 +64,9 @@ m("decl-order-value-pushed-first", ["C09"], ["DECL-ORDER|Resolver::statement|Def
   "                    let var = self.push_var(ident, *kind);\n                    let value_maybe = self.expression(value);\n                    (value_maybe?, var)")
 
 # ---- DISCHARGE
-m("discharge-binop-check-dropped", ["C03", "C02"], ["DISCHARGE|expression|Constraint::"], TC,
+# (since fix cc45902 the operator handlers are symmetric and record on both nodes: checking one operand is enough, so
+#  this edit and the one-sided registration below are behaviour-preserving twins now)
+m("twin-binop-second-check-dropped", ["C03", "C02"], "silent", TC,
   "        $self.check_constraints($span, $ctx, a)?;\n        $self.check_constraints($span, $ctx, b)?;\n        with_ret($self.unify_option($span, $ctx, a_ret, b_ret)?, a)",
   "        $self.check_constraints($span, $ctx, a)?;\n        with_ret($self.unify_option($span, $ctx, a_ret, b_ret)?, a)")
 m("discharge-blobaccess-check-dropped", ["C05", "C02"], ["DISCHARGE|expression|Constraint::Field"], TC,
@@ -97,7 +99,7 @@ m("accept-add-int-str", ["C03"], ["ACCEPT|add|ok-set"], TC,
   "(Type::Float, Type::Float) | (Type::Int, Type::Int) | (Type::Str, Type::Str) => Ok(()),",
   "(Type::Float, Type::Float) | (Type::Int, Type::Int) | (Type::Str, Type::Str) | (Type::Int, Type::Str) => Ok(()),")
 m("accept-purity-pair", ["C04"], ["PURITY-UNIFY|sub_unify|purity-pairs"], TC,
-  "                            (Purity::Impure, Purity::Impure) => (),", "                            (Purity::Impure, Purity::Impure) |\n                            (Purity::Pure, Purity::Impure) => (),")
+  "                            (Purity::Impure, Purity::Impure) => Purity::Impure,", "                            (Purity::Impure, Purity::Impure) |\n                            (Purity::Pure, Purity::Impure) => Purity::Impure,")
 m("accept-can-assign-call", ["C04"], ["ASSIGNABILITY|can_assign|accept-set", "ASSIGNABILITY|can_assign|reject-set"], TC,
   "            E::BlobAccess { .. } | E::Index { .. } => {}\n\n            E::Variant { .. }\n            | E::Call { .. }", "            E::BlobAccess { .. } | E::Index { .. } | E::Call { .. } => {}\n\n            E::Variant { .. }")
 m("shape-index-out-of-range-ok", ["C05"], ["SHAPE-ACCEPT|constant_index|out-of-range"], TC,
@@ -185,8 +187,8 @@ m("layout-prime-call-other-node", ["C14"], ["ONE-CALL-NODE|assignable_call|singl
 m("tok-col-from-byte", ["C17"], ["UNIT|Span.col_start"], TOK,
   "let col_start = char_at_byte[byte_range.start].unwrap() - last_newline;", "let col_start = byte_range.start + 1 - last_newline;")
 m("tok-line-advance-only-newline", ["C17", "C15"], ["LINE|advance|String"], TOK,
-  "            } else {\n                // Tokens like strings can span multiple lines.\n                for (offset, _) in content[byte_range.clone()].match_indices('\\n') {\n                    last_newline = char_at_byte[byte_range.start + offset].unwrap();\n                    line += 1;\n                }\n            }",
-  "            }")
+  "                for (offset, _) in content[byte_range.clone()].match_indices('\\n') {\n                    last_newline = char_at_byte[byte_range.start + offset].unwrap();\n                    line += 1;\n                }\n",
+  "")
 m("tok-newline-skipped", ["C17"], ["SKIP|only-whitespace", "SKIP|newline-is-token"], TOKT,
   '#[token("\\n")]\n    Newline,', '#[token("\\n", logos::skip)]\n    Newline,')
 
@@ -201,8 +203,8 @@ m("mod-lookup-scans-all", ["C12"], ["ISOLATION|no-scan", "ISOLATION|lookup_globa
 
 # ---- driver
 m("drv-create-before-compile", ["C20"], ["ATOMIC|compile-before-create"], LIB,
-  "            let mut buf = Vec::new();\n            // NOTE(ed): Lack of running\n            compile_with_reader_to_writer(args, reader, buf.by_ref())?;\n\n            File::create(s)\n                .expect(&format!(\"Failed to create file: {}\", s.display()))\n                .write_all(&buf)",
-  "            let mut buf = Vec::new();\n            let mut file = File::create(s).expect(&format!(\"Failed to create file: {}\", s.display()));\n            // NOTE(ed): Lack of running\n            compile_with_reader_to_writer(args, reader, buf.by_ref())?;\n\n            file\n                .write_all(&buf)")
+  "            let mut buf = Vec::new();\n            // NOTE(ed): Lack of running\n            compile_with_reader_to_writer(args, reader, buf.by_ref())?;\n\n            File::create(s)\n                .map_err(|e| vec![Error::IOError(Rc::new(e))])?\n                .write_all(&buf)",
+  "            let mut buf = Vec::new();\n            let mut file = File::create(s).map_err(|e| vec![Error::IOError(Rc::new(e))])?;\n            // NOTE(ed): Lack of running\n            compile_with_reader_to_writer(args, reader, buf.by_ref())?;\n\n            file\n                .write_all(&buf)")
 m("drv-main-always-ok", ["C20"], ["EXIT|main|errors=>Err"], MAIN,
   "        Err(format!(\"{} errors occured.\", errs.len()))", "        Ok(())")
 m("drv-require-in-loop", ["C20"], ["REQUIRE|"], LUA,
@@ -227,15 +229,15 @@ m("lua-fold-callback-arity", ["C18"], ["EXTERNALS|list.list_fold|callback-f"], P
 
 # ---- annotations / non-interference
 m("nonint-lowering-reads-kind", ["C08"], ["NO-TYPE-FLOW|"], IR,
-  "        .find(|x| &x.name == \"start\" && x.is_global)\n        .unwrap()\n        .id);",
-  "        .find(|x| &x.name == \"start\" && x.is_global && x.kind.immutable())\n        .unwrap()\n        .id);")
+  "        .find(|x| &x.name == \"start\" && x.is_global && x.definition.file_id == 0)\n        .unwrap()\n        .id);",
+  "        .find(|x| &x.name == \"start\" && x.is_global && x.definition.file_id == 0 && x.kind.immutable())\n        .unwrap()\n        .id);")
 m("names-lowering-uses-function-name", ["C09"], ["NAMES|"], IR,
   "            E::Function { body, params, .. } => {\n                let mut body = body.clone();",
   "            E::Function { body, params, name, .. } => {\n                let _dbg = name.len();\n                let mut body = body.clone();")
 
 
 # ---- rules added after the second seeding round
-m("pair-assign-add-one-sided", ["C03", "C02"], ["OPERAND-PAIR|statement|Assignment/Add"], TC,
+m("twin-pair-assign-add-one-sided", ["C03", "C02"], "silent", TC,
   "                        self.add_constraint(expression_ty, *span, Constraint::Add(target_ty));\n                        self.add_constraint(target_ty, *span, Constraint::Add(expression_ty));",
   "                        self.add_constraint(target_ty, *span, Constraint::Add(expression_ty));")
 m("twin-pair-mul-lines-swapped", ["C03", "C02"], "silent", TC,
@@ -288,12 +290,65 @@ m("twin-annotation-purity-renamed", ["C04", "C08"], "silent", TC,
 m("annotation-fn-resolves-impure", ["C04", "C08"], ["PURITY-UNIFY|inner_resolve_type|annotation-purity", "ANNOTATION-PERMISSIVE|"], TC,
   "                let purity = is_pure.then(|| Purity::Pure).unwrap_or(Purity::Undefined);",
   "                let purity = is_pure.then(|| Purity::Pure).unwrap_or(Purity::Impure);")
-m("start-missing-is-ok", ["C07", "C05"], ["CONTRACT|K10|absent=>Err", "START|solve|no-start=>Err"], TC,
+# (since fix 4962bd7 name resolution guarantees the start variable, this arm is dead: a twin now)
+m("twin-start-missing-arm-ok", ["C07", "C05"], "silent", TC,
   "            None => {\n                // TODO[ed]: Is this unreachable?\n                err_type_error!(\n                    self,\n                    Span::zero(0),\n                    TypeError::Exotic,\n                    \"Expected a start function in the main module - but couldn't find it\"\n                )\n            }",
   "            None => Ok(()),")
 m("dep-blob-fields-not-edges", ["C11", "C03"], ["VISIT-dep|dependency::statement_dependencies|Blob.fields"], DEP,
   "        S::Blob { var, fields: types, .. } | S::Enum { var, variants: types, .. } => {",
   "        S::Blob { .. } => BTreeSet::new(),\n        S::Enum { var, variants: types, .. } => {")
+
+
+# ---- rules added after the bug-hunting round
+m("defer-add-unknown-not-recorded", ["C03", "C02"], ["DEFER-RECORDED|add|unknown-arm"], TC,
+  "                self.add_constraint(a, span, Constraint::Add(b));\n                self.add_constraint(b, span, Constraint::Add(a));\n                Ok(())", "                Ok(())")
+m("retfold-if-no-else-drops-returns", ["C03", "C02"], ["RET-FOLD|expression|If"], TC,
+  "                    for (span, branch_ret, _) in tys.iter() {\n                        ret = self\n                            .unify_option(**span, ctx, *branch_ret, ret)\n                            .help_no_span(\n                                \"The return from this block doesn't match the earlier branches\"\n                                    .into(),\n                            )?;\n                    }\n                    let void = self.push_type(Type::Void);",
+  "                    let void = self.push_type(Type::Void);")
+m("binder-self-untyped", ["C03", "C05", "C02"], ["BINDER-TYPED|Expression::Blob.self_var"], TC,
+  "                self.unify(*span, ctx, self.variables[*self_var].ty, given_blob)?;\n", "                let _ = self_var;\n")
+m("typename-read-allowed", ["C02", "C03"], ["TYPE-NAME|expression|Read"], TC,
+  "                if self.type_declarations.contains(var) {", "                if false && self.type_declarations.contains(var) {")
+m("assignop-unify-only", ["C03", "C02"], ["DISCHARGE|statement|Constraint::"], TC,
+  "                    self.check_constraints(*span, ctx, expression_ty)?;\n                    self.check_constraints(*span, ctx, target_ty)?;\n                }\n                self.unify_option(*span, ctx, expression_ret, target_ret)",
+  "                }\n                self.unify_option(*span, ctx, expression_ret, target_ret)")
+m("purity-merge-forgotten", ["C04"], ["PURITY-UNIFY|sub_unify|merge-keeps-purity"], TC,
+  "                    self.find_node_mut(a).ty = Type::Function(a_args.clone(), a_ret, purity.clone());\n                    self.find_node_mut(b).ty = Type::Function(b_args.clone(), b_ret, purity);\n",
+  "                    let _ = purity;\n")
+m("start-any-module", ["C05", "C11", "C12"], ["START|intermediate::compile|start-defined-in-main"], IR,
+  "        .find(|x| &x.name == \"start\" && x.is_global && x.definition.file_id == 0)\n        .unwrap()",
+  "        .find(|x| &x.name == \"start\" && x.is_global)\n        .unwrap()")
+m("latereaed-compound-assign", ["C01", "C10"], ["IRP-order|statement|Assignment|", "SNAPSHOT|statement|Assignment|"], IR,
+  "                        let current = self.var();\n                        (\n                            vec![IR::Copy(current, Var(*var))],\n                            current,\n                            vec![IR::Assign(Var(*var), res)],\n                        )",
+  "                        (Vec::new(), Var(*var), vec![IR::Assign(Var(*var), res)])")
+m("dep-signature-not-edges", ["C11"], ["VISIT-dep|dependency::dependencies|Function.params", "VISIT-dep|dependency::dependencies|Function.ret"], DEP,
+  "            .chain(params.iter().map(|(_, _, _, ty)| ty_dependency(ty)).flatten())\n            .chain(ty_dependency(ret))\n", "")
+m("annotation-after-binder", ["C09"], ["DECL-ORDER|Resolver::expression|Function|annotation-before-binder"], NR,
+  "                for ((n, _), ty) in parser_params.iter().zip(param_types.into_iter()) {\n                    let var = self.push_var(n, VarKind::Const);\n                    params.push((n.name.clone(), var, n.span, ty));\n                }",
+  "                for ((n, t), _) in parser_params.iter().zip(param_types.into_iter()) {\n                    let var = self.push_var(n, VarKind::Const);\n                    params.push((n.name.clone(), var, n.span, self.ty(t)?));\n                }")
+m("parens-shape-test-outermost", ["C14"], ["PARENS|Resolver::expression|shape-test"], NR,
+  "                    if matches!(without_parenthesis(field).kind, EK::Function { .. }) {", "                    if matches!(field.kind, EK::Function { .. }) {")
+m("prime-loses-level", ["C13"], ["LEVELS|precedence|Prime", "SETS|valid_infix|all-have-a-level"], PEX,
+  "        T::LeftBracket | T::Dot | T::LeftParen | T::Prime => Prec::Index,", "        T::LeftBracket | T::Dot | T::LeftParen => Prec::Index,")
+m("arrow-rhs-whole-expression", ["C14"], ["ARROW|parser|rhs-level"], PEX,
+  "    let (ctx, rhs) = parse_precedence(ctx, Prec::Index)?;", "    let (ctx, rhs) = expression(ctx)?;")
+m("ret-operand-speculative", ["C15"], ["PARSE-ERROR-DROPPED|statement|expression"], PST,
+  "                let (ctx, value) = expression(ctx)?;\n                (ctx, Some(value))\n            };\n            (ctx, Ret { value })",
+  "                match expression(ctx) {\n                    Ok((ctx, value)) => (ctx, Some(value)),\n                    Err(_) => (ctx, None),\n                }\n            };\n            (ctx, Ret { value })")
+m("unsigned-sub-unguarded", ["C07"], ["UNSIGNED-SUB|Context::comments_since_last_statement"], PPA,
+  "            .take(self.curr.saturating_sub(self.last_statement))", "            .take(self.curr - self.last_statement)")
+m("digits-unicode-class", ["C17"], ["TABLE|ascii-classes-only"], TOKT,
+  '#[regex(r"[0-9]+", |lex| lex.slice().parse())]', '#[regex(r"[\\d]+", |lex| lex.slice().parse())]')
+m("listset-no-lower-bound", ["C18"], ["INDEX-BOUNDS|list_set|guard-excludes-invalid"], PRE,
+  "    if i >= 0 and #l > i then", "    if #l > i then")
+m("tuple-add-raw-plus", ["C19"], ["ARITH|tuple|__add|operator"], PRE,
+  "        out[x] = __ADD(a[x], b[x])", "        out[x] = a[x] + b[x]")
+m("output-create-expect", ["C20"], ["EXIT|output-file|io-errors-reported"], LIB,
+  "            File::create(s)\n                .map_err(|e| vec![Error::IOError(Rc::new(e))])?\n", "            File::create(s)\n                .expect(\"Failed to create file\")\n")
+m("twin-ret-operand-tokens-reordered", ["C15"], "silent", PST,
+  "                T::Newline | T::End | T::Else | T::Elif | T::EOF", "                T::EOF | T::End | T::Else | T::Elif | T::Newline")
+m("twin-neg-arms-reordered", ["C03", "C19"], "silent", TC,
+  "            Type::Int | Type::Float => Ok(()),\n\n            // Negation is element-wise", "            Type::Float | Type::Int => Ok(()),\n\n            // Negation is element-wise")
 
 for w in W:
     with open(os.path.join(OUT, w["name"] + ".json"), "w") as fh:
